@@ -384,6 +384,26 @@ pub fn sweep(tier: Tier) -> Sweep {
         for e in &pruned {
             hists.push(vec![*e; 2000]);
         }
+        // a Sync outage on a peer-to-peer slave: k seconds of one peer delay and one Sync per second
+        // (offsets with +-1 us of low-discrepancy jitter, so that the wander adaptation is at
+        // work), then 600 s of peer delays alone, then Sync again and a filter update - for every
+        // k in 10..=120 (quick: every third)
+        for k in (10usize..=120).step_by(tier.pick(3, 1)) {
+            let mut h = vec![];
+            for i in 0..k {
+                let j = (((i as f64 + 1.0) * 0.618_033_988_749_894_9).fract() - 0.5) * 2000.0;
+                h.push(FEv::M(Kind::Peer, 500, 500_000_000));
+                h.push(FEv::M(Kind::Sync, j as i64, 500_000_000));
+            }
+            for _ in 0..600 {
+                h.push(FEv::M(Kind::Peer, 500, 1_000_000_000));
+            }
+            for i in 0..5 {
+                h.push(FEv::M(Kind::Sync, 300 * (i as i64 - 2), 1_000_000_000));
+            }
+            h.push(FEv::Update);
+            hists.push(h);
+        }
         let n_base = hists.len();
         for period in 1..=tier.pick(1usize, 2usize) {
             for pat in enumerate(&pruned, period) {
